@@ -158,6 +158,9 @@ def real_s2(c):
         return np.asarray(s2.particle_s2(), dtype=float)
 
 
+real_s2 = common.with_history(real_s2)
+
+
 def oracle_s2(c):
     """the property's formula evaluated directly; returns (values[T][N], ok[T][N], stats) where ok is False when a
     decision is inside the margin or the smeared g has a zero"""
@@ -254,6 +257,9 @@ def real_tetra(c):
     sn = _snap(c["N"], [1] * c["N"], [[fl(x) for x in p] for p in c["pos"]], L, H)
     with np.errstate(all="ignore"):
         return np.asarray(q8_tetrahedral(_snaps([sn]), ppp=np.array([int(x) for x in c["ppp"]])), dtype=float)[0]
+
+
+real_tetra = common.with_history(real_tetra)
 
 
 def oracle_tetra(c):
@@ -817,14 +823,21 @@ def run_cases(run, cases):
 
 
 def n_cases(tier):
-    return {"s2": 40, "tetra": 60, "nematic": 80, "gyr": 120} if tier == "quick" else \
+    return {"s2": 80, "tetra": 120, "nematic": 160, "gyr": 240} if tier == "quick" else \
         {"s2": 1500, "tetra": 4000, "nematic": 5000, "gyr": 8000}
 
 
 def correspond(run):
     cases = list(common.load_corpus(PROP))
+    def sibling(rng, c):
+        # same cell, mask, species, widths, bins — every position moved a little
+        if c["kind"] == "s2":
+            return dict(c, frames=[common.jitter_positions(rng, fr, 0.2, 2) for fr in c["frames"]])
+        if c["kind"] == "tetra" and not c.get("motif"):
+            return dict(c, pos=common.jitter_positions(rng, c["pos"], 0.2, 2))
+        return None
     for k, n in n_cases(run.tier).items():
-        cases += [GEN[k](run.rng) for _ in range(n)]
+        cases += common.add_siblings(run.rng, [GEN[k](run.rng) for _ in range(n)], sibling, every=5)
     dis = run_cases(run, cases)
     run.coverage["traces_validated_against_impl"] = run.coverage["evaluations"]
     broken = []
